@@ -34,6 +34,16 @@ Theorem C03_results_are_valid_ids : forall ids H V o, (forall i, In i ids -> val
 Proof. exact change_valid. Qed.
 Print Assumptions C03_results_are_valid_ids.
 
+(* ---- one input ID: `one H V i` is literally what the list-level function returns for the list [i], and (printed) what the exported
+        function returns for the printed ID — the theorems below about `one H V i` are therefore statements about the result of the API ---- *)
+Theorem C03_single_id_result : forall i H V, change_eids [i] H V = one H V i.
+Proof. exact change_single. Qed.
+Print Assumptions C03_single_id_result.
+Theorem C03_single_id_api : forall i H V, valid i -> 0 <= H <= 35 -> 0 <= V <= 35 ->
+  change_ext_api [print_eid i] H V = Ok (map print_eid (one H V i)).
+Proof. exact change_ext_api_single. Qed.
+Print Assumptions C03_single_id_api.
+
 (* ---- raising: 4^dh * 2^dv pairwise distinct descendants; each lies inside the input, they are pairwise disjoint, and they cover it ---- *)
 Theorem C03_raising_partitions_the_voxel : forall i H V, valid i -> eh i <= H -> ev i <= V ->
   length (one H V i) = Z.to_nat (4 ^ (H - eh i) * 2 ^ (V - ev i)) /\
@@ -51,8 +61,8 @@ Theorem C03_lowering_gives_the_containing_ancestor : forall i H V, valid i -> 0 
 Proof. exact lower_single_valid. Qed.
 Print Assumptions C03_lowering_gives_the_containing_ancestor.
 
-(* ---- the axes are independent: the result for one ID is the product of the horizontal and the vertical result; in the mixed
-        cases one axis is refined while the other is coarsened ---- *)
+(* ---- the axes are independent: the result for one ID is the product of the horizontal and the vertical result (this first statement unfolds
+        the model's cross product; its content about the grid is in the two `mixed` theorems: one axis refined while the other is coarsened) ---- *)
 Theorem C03_axes_independent : forall H V i x y f,
   In (mk H x y V f) (one H V i) <-> In (x, y) (hzoom (eh i) (ex i) (ey i) H) /\ In f (vzoom (ev i) (ef i) V).
 Proof. exact one_product_In. Qed.
@@ -83,10 +93,6 @@ Theorem C03_vertical_axis_is_floor : forall zin f zout o, 0 <= zin -> 0 <= zout 
   (In o (vzoom zin f zout) <-> (if zin <=? zout then anc (zout - zin) o = f else anc (zin - zout) f = o)).
 Proof. exact vzoom_exact. Qed.
 Print Assumptions C03_vertical_axis_is_floor.
-(* the division the pinned code used (truncation) is not the ancestor for f = -1 *)
-Theorem C03_truncation_refuted : ~ rel1 3 (-1) 1 (Z.quot (-1) (vnum (1 - 3))).
-Proof. exact truncation_refuted. Qed.
-Print Assumptions C03_truncation_refuted.
 
 (* ---- the exported string-level functions ---- *)
 (* ChangeExtendedSpatialIdsZoom on any list of strings that parse to valid IDs: no error, and the printed list-level result *)
